@@ -185,12 +185,12 @@ def run(ctx):
     rng = np.random.RandomState(ctx.seed + 6)
     recs = []
     with tmp_dir(ctx) as d:
-        for k in range(150 if ctx.quick else 1200):
+        for k in range(150 if ctx.quick else 8000):
             recs += _store_records(ctx, d, rng, k, len(recs) + 1)
             if ctx.abort:
                 return
     with tmp_dir(ctx) as d:
-        pca, discarded = _pca_records(ctx, rng, 150 if ctx.quick else 1500, len(recs) + 1, d)
+        pca, discarded = _pca_records(ctx, rng, 150 if ctx.quick else 6000, len(recs) + 1, d)
     if ctx.abort:
         return
     recs += pca
